@@ -268,9 +268,11 @@ seq_t dtw_distance(seq_t *s1, idx_t l1,
         ec = ec_next;
         // Deal with Psi-relaxation in last column
         if (settings->psi_1e != 0 && minj == l2 && l1 - 1 - i <= settings->psi_1e) {
+            // The last column of this row (not the last cell written: that cell can
+            // have been skipped because of max_step or pruning).
+            curidx = i1 * length + l2 - skip;
             assert(!(settings->window == 0 || settings->window == l2) || (i1 + 1)*length - 1 == curidx);
             if (dtw[curidx] < psi_shortest) {
-                // curidx is the last value
                 psi_shortest = dtw[curidx];
             }
         }
@@ -511,9 +513,11 @@ seq_t dtw_distance_ndim(seq_t *s1, idx_t l1,
         ec = ec_next;
         // Deal with Psi-relaxation in last column
         if (settings->psi_1e != 0 && minj == l2 && l1 - 1 - i <= settings->psi_1e) {
+            // The last column of this row (not the last cell written: that cell can
+            // have been skipped because of max_step or pruning).
+            curidx = i1 * length + l2 - skip;
             assert(!(settings->window == 0 || settings->window == l2) || (i1 + 1)*length - 1 == curidx);
             if (dtw[curidx] < psi_shortest) {
-                // curidx is the last value
                 psi_shortest = dtw[curidx];
             }
         }
@@ -742,9 +746,11 @@ seq_t dtw_distance_euclidean(seq_t *s1, idx_t l1,
         ec = ec_next;
         // Deal with Psi-relaxation in last column
         if (settings->psi_1e != 0 && minj == l2 && l1 - 1 - i <= settings->psi_1e) {
+            // The last column of this row (not the last cell written: that cell can
+            // have been skipped because of max_step or pruning).
+            curidx = i1 * length + l2 - skip;
             assert(!(settings->window == 0 || settings->window == l2) || (i1 + 1)*length - 1 == curidx);
             if (dtw[curidx] < psi_shortest) {
-                // curidx is the last value
                 psi_shortest = dtw[curidx];
             }
         }
@@ -982,9 +988,11 @@ seq_t dtw_distance_ndim_euclidean(seq_t *s1, idx_t l1,
         ec = ec_next;
         // Deal with Psi-relaxation in last column
         if (settings->psi_1e != 0 && minj == l2 && l1 - 1 - i <= settings->psi_1e) {
+            // The last column of this row (not the last cell written: that cell can
+            // have been skipped because of max_step or pruning).
+            curidx = i1 * length + l2 - skip;
             assert(!(settings->window == 0 || settings->window == l2) || (i1 + 1)*length - 1 == curidx);
             if (dtw[curidx] < psi_shortest) {
-                // curidx is the last value
                 psi_shortest = dtw[curidx];
             }
         }
